@@ -28,9 +28,12 @@ package c18
 
 import (
 	"context"
+	"encoding/json"
+	"fmt"
 	"math/rand"
 	"os"
 	"sort"
+	"strings"
 	"sync"
 	"testing"
 	"testing/synctest"
@@ -266,7 +269,13 @@ func (r *run) bringUp(p string) {
 	case "down":
 		r.stim("reconnect", []M{}, func() { r.reconnect(p, false) })
 	case "noout":
-		r.stim("openOut", []M{}, func() { r.w.Do(M{"a": "openOut", "p": p}) })
+		r.stim("openOut", []M{}, func() {
+			if err := openOut(r.w.Fakes[p]); err != nil {
+				r.abort = vh.Sprintf("openOut %s: %v", p, err)
+			}
+			hnet.Settle(15 * time.Millisecond)
+			r.w.Emit(M{"a": "openOut"})
+		})
 	}
 	r.conn[p] = "up"
 }
@@ -276,17 +285,41 @@ func (r *run) bringUp(p string) {
 // BasicHost.Connect has been seen waiting for ever for identify on a connection that is up.
 func (r *run) reconnect(p string, hello bool) {
 	f := r.w.Fakes[p]
-	ctx, cancel := context.WithTimeout(context.Background(), 3*time.Second)
-	err := f.H.Connect(ctx, peer.AddrInfo{ID: f.NUT.ID(), Addrs: f.NUT.Addrs()})
-	cancel()
-	hnet.Settle(20 * time.Millisecond)
-	if err2 := f.OpenOut(); err2 != nil {
-		r.abort = vh.Sprintf("reconnect %s: %v / %v", p, err, err2)
+	if err := connectUp(f); err != nil {
+		r.abort = vh.Sprintf("reconnect %s: %v", p, err)
 	} else if hello {
 		f.Send(subRPC(true))
 	}
 	hnet.Settle(20 * time.Millisecond)
 	r.w.Emit(M{"a": "peer"})
+}
+
+// connectUp dials the NUT from a fake peer and opens its stream, like world's "peer" action,
+// but every wait has a (virtual-time) deadline: hnet.Connect / FakePeer.OpenOut use
+// context.Background() and BasicHost.Connect / NewStream wait for identify, which under load
+// has been seen never to complete on a connection that is up.
+func connectUp(f *hnet.FakePeer) error {
+	ctx, cancel := context.WithTimeout(context.Background(), 3*time.Second)
+	err := f.H.Connect(ctx, peer.AddrInfo{ID: f.NUT.ID(), Addrs: f.NUT.Addrs()})
+	cancel()
+	hnet.Settle(20 * time.Millisecond)
+	if err2 := openOut(f); err2 != nil {
+		return fmt.Errorf("connect: %v; open stream: %v", err, err2)
+	}
+	hnet.Settle(20 * time.Millisecond)
+	return nil
+}
+
+// openOut is FakePeer.OpenOut with a deadline of 5 virtual seconds.
+func openOut(f *hnet.FakePeer) error {
+	done := make(chan error, 1)
+	go func() { done <- f.OpenOut() }()
+	select {
+	case err := <-done:
+		return err
+	case <-time.After(5 * time.Second):
+		return fmt.Errorf("FakePeer.OpenOut did not return within 5 s (virtual)")
+	}
 }
 
 func (r *run) join(p string) {
@@ -422,13 +455,16 @@ func marker(i int) {
 }
 
 // newWorld builds the node under test and its fake peers inside the current bubble.
-func newWorld(t *testing.T, out *vh.Out, idx int, cfgm M) *run {
+func newWorld(t *testing.T, out *vh.Out, idx int, cfgm M) (*run, error) {
 	np := geti(cfgm, "npeers", 2)
 	router := gets(cfgm, "router", "gossipsub")
 	cfg := world.Config{Router: router, Hosts: np + 2}
 	r := &run{t: t, out: out, scn: idx, conn: map[string]string{}, proto: map[string]string{}, setup: true, router: router, np: np}
 	w := world.New(t, out, idx, cfg, nil)
 	r.w = w
+	// let the hosts finish starting before stream handlers are registered (identify takes its
+	// snapshot of the handlers early; a floodsub node has no heartbeat for world to cross first)
+	hnet.Settle(10 * time.Millisecond)
 	// every world step line is reduced to what C18 needs
 	w.Extra = func(w *world.World, line world.M) {
 		act, _ := line["act"].(world.M)
@@ -451,14 +487,21 @@ func newWorld(t *testing.T, out *vh.Out, idx int, cfgm M) *run {
 		p := vh.Sprintf("p%d", i+1)
 		r.peers = append(r.peers, p)
 		r.proto[p] = gets(cfgm, "proto", protos[i%len(protos)])
-		w.Do(M{"a": "peer", "p": p, "proto": r.proto[p], "dir": "in", "subs": []any{}})
+		w.Guard()
+		f := hnet.NewFakePeer(w.Net.Take(), p, r.proto[p], w.H.Host)
+		w.Names.AddPeer(f.ID(), p)
+		w.Fakes[p] = f
+		if err := connectUp(f); err != nil {
+			return r, fmt.Errorf("setup of %s: %v", p, err)
+		}
+		w.Emit(M{"a": "peer"})
 		r.conn[p] = "up"
 	}
 	r.tp = w.Topic(topic)
 	if getb(cfgm, "nutSub") {
 		w.Do(M{"a": "subscribe", "t": topic})
 	}
-	return r
+	return r, nil
 }
 
 // episode replays one scenario on the (possibly reused) world. The membership is brought back
@@ -569,62 +612,83 @@ func (r *run) releaseAll() int {
 	return len(parkedC)
 }
 
-// TestC18Replay replays the scenarios of VERIF_IN. Consecutive scenarios with the same
-// configuration share one node under test (one synctest bubble per batch of VERIF_BATCH
-// scenarios); batches run in parallel. Every line carries its scenario index.
+// fault is fault injection for testing the orchestrator's supervision of this driver (never set
+// in a normal run): VERIF_C18_FAULT=hang:<scenario> wedges the process there (a goroutine blocked on
+// a mutex is not durably blocked, so the bubble can neither proceed nor deadlock), die:<scenario> exits,
+// dieonce:<scenario> exits only in the first process of a shard.
+func fault(i int) {
+	switch os.Getenv("VERIF_C18_FAULT") {
+	case vh.Sprintf("hang:%d", i):
+		var mu sync.Mutex
+		mu.Lock()
+		mu.Lock()
+	case vh.Sprintf("die:%d", i):
+		os.Exit(3)
+	case vh.Sprintf("dieonce:%d", i): // only in a shard's first process
+		if strings.HasSuffix(os.Getenv("VERIF_JOBS"), "-a1.json") {
+			os.Exit(3)
+		}
+	}
+}
+
+// TestC18Replay replays scenarios of VERIF_IN. VERIF_JOBS names a JSON file with the jobs of this
+// process: [[from, to], ...], half-open ranges of scenario indices that share one configuration and
+// therefore one node under test (one synctest bubble per job; jobs run one after the other: running
+// bubbles in parallel inside one process makes the Go 1.25 runtime die now and then with "sync:
+// WaitGroup.Add called from multiple synctest bubbles"). Each job writes VERIF_OUTDIR/job-<from>.ndjson
+// and closes it when done, so that what a process recorded before it died or was killed is kept.
+// VERIF_MARKER is rewritten at the start of every scenario: the orchestrator watches it for progress.
 func TestC18Replay(t *testing.T) {
 	scns := vh.ReadScenarios[scenario](t, "VERIF_IN")
-	out := vh.NewOut(t, "VERIF_OUT")
-	only := vh.EnvInt("VERIF_ONLY", -1)
-	from, to := vh.EnvInt("VERIF_FROM", 0), vh.EnvInt("VERIF_TO", 1<<30) // debugging: a range of scenarios, original indices
-	batch := vh.EnvInt("VERIF_BATCH", 40)
-	par := vh.EnvInt("VERIF_PAR", 1)
-	type job struct{ from, to int }
-	var jobs []job
-	key := func(s scenario) string { return vh.Sprintf("%v", s.Cfg) }
-	for i := 0; i < len(scns); {
-		j := i + 1
-		for j < len(scns) && j-i < batch && key(scns[j]) == key(scns[i]) {
-			j++
-		}
-		jobs = append(jobs, job{i, j})
-		i = j
+	outdir := os.Getenv("VERIF_OUTDIR")
+	if outdir == "" {
+		t.Skip("VERIF_OUTDIR not set (driver is run by bin/check)")
 	}
-	runJob := func(t *testing.T, jb job) {
+	var jobs [][2]int
+	if jf := os.Getenv("VERIF_JOBS"); jf != "" {
+		b, err := os.ReadFile(jf)
+		if err != nil {
+			t.Fatal(err)
+		}
+		if err := json.Unmarshal(b, &jobs); err != nil {
+			t.Fatal(err)
+		}
+	} else {
+		jobs = [][2]int{{0, len(scns)}}
+	}
+	for _, jb := range jobs {
+		if jb[0] < 0 || jb[1] > len(scns) || jb[0] >= jb[1] {
+			t.Fatalf("bad job %v", jb)
+		}
+		os.Setenv("VERIF_OUT_JOB", vh.Sprintf("%s/job-%d.ndjson", outdir, jb[0]))
+		out := vh.NewOut(t, "VERIF_OUT_JOB")
 		synctest.Test(t, func(t *testing.T) {
 			var r *run
-			for i := jb.from; i < jb.to; i++ {
-				if (only >= 0 && i != only) || i < from || i >= to {
-					continue
-				}
-				if par <= 1 {
-					marker(i)
+			for i := jb[0]; i < jb[1]; i++ {
+				marker(i)
+				fault(i)
+				for try := 0; r == nil && try < 3; try++ {
+					var err error
+					if r, err = newWorld(t, out, i, scns[i].Cfg); err != nil {
+						out.Emit(M{"e": "setup-failed", "scn": i, "why": err.Error()})
+						r.w.Close()
+						r = nil
+					}
 				}
 				if r == nil {
-					r = newWorld(t, out, i, scns[i].Cfg)
-					defer r.w.Close()
+					t.Fatalf("c18: cannot set up the node under test and its peers for scenario %d", i)
 				}
 				r.t = t
 				r.episode(i, scns[i])
+				if r.abort != "" { // the harness lost a fake peer: do not reuse this world
+					r.w.Close()
+					r = nil
+				}
+			}
+			if r != nil {
+				r.w.Close()
 			}
 		})
+		out.Close()
 	}
-	if par <= 1 {
-		for _, jb := range jobs {
-			runJob(t, jb)
-		}
-		return
-	}
-	sem := make(chan struct{}, par)
-	t.Run("batches", func(t *testing.T) {
-		for k, jb := range jobs {
-			jb := jb
-			t.Run(vh.Sprintf("b%d", k), func(t *testing.T) {
-				t.Parallel()
-				sem <- struct{}{}
-				defer func() { <-sem }()
-				runJob(t, jb)
-			})
-		}
-	})
 }
